@@ -25,6 +25,7 @@ THEOREMS = [
     "CM.Deps.C14_req_preserves",
     "CM.Deps.C14_req_each_once",
     "CM.Deps.C14_cfg_preserves",
+    "CM.Deps.C14_cfg_each_once",
     "CM.Pipeline.C14_at_most_one_store",
     "CM.Pipeline.C14_no_store_reports",
 ]
